@@ -65,7 +65,7 @@ FRAG_COMPILE = S.EVALUABLE.but(
 BOX = (-2, 1, 3)
 
 
-def env_box(names):
+def env_box(names, big_ok=True):
     names = sorted(names)
     out = []
     vals = {"x": (-2, 1, 3), "y": (-3, 2), "z": (0, 5), "k": (0, 2), "m": (1,),
@@ -84,7 +84,7 @@ def env_box(names):
     # environments in which a power/shift would explode before the generated code is run
     big = dict(out[0])
     big.update({k: v for k, v in BIG_ENV.items() if k in names})
-    if any(k in names for k in BIG_ENV):
+    if big_ok and any(k in names for k in BIG_ENV):
         out.append(big)
     return out
 
@@ -338,7 +338,7 @@ def check_compile(spec):
             return cc(*[env[n] for n in order])
         return thunk
 
-    env_specs = env_box(names | set(listed))
+    env_specs = env_box(names | set(listed), big_ok=not _float_tainted(e))
     if _ill_conditioned(e):
         # the generated text flattens nested products/sums (a*(b*c) -> a*b*c): values
         # are not compared where rounding may cross a jump; signature and pickling are
@@ -405,7 +405,7 @@ def check_toast(spec):
     if _ill_conditioned(e):
         res.label("ill-conditioned-float-case")
         return res.skip("re-associated-floats-under-discontinuous-operation")
-    boxes = env_box(names)
+    boxes = env_box(names, big_ok=not _float_tainted(e))
     if _needs_fractions(e):
         boxes = _fractionize(boxes)   # exact x/y: the AST path re-associates n-ary nodes
     run_and_compare(res, "toast", e,
@@ -479,7 +479,7 @@ def check_tofunc(spec):
         if missing:
             raise NameError(missing[0])
         return f(**{n: env[n] for n in names})
-    boxes = env_box(names)
+    boxes = env_box(names, big_ok=not _float_tainted(e))
     if _needs_fractions(e):
         boxes = _fractionize(boxes)
     run_and_compare(res, "tofunc", e, thunk, boxes)
@@ -614,6 +614,17 @@ def expr_for(draw, frag):
         ex = ["Tuple", [ex, draw(S.expr("INT", 2, frag))]]
     elif c == 1:
         ex = ["Call", ["Lookup", ["Var", "math"], "floor"], [ex]]
+    elif c == 4:
+        # a comparison as an operand of a comparison: (a < b) < c is not Python's chain
+        v = lambda: draw(st.sampled_from((["Var", "x"], ["Var", "y"], ["Var", "z"],  # noqa: E731
+                                          ["Const", "int", 0], ["Const", "int", 1],
+                                          ["Var", "k"])))
+        op = lambda: draw(st.sampled_from(S.CMP_OPS))  # noqa: E731
+        inner = ["Comparison", v(), op(), v()]
+        ex = ["Comparison", inner, op(), v()] if draw(st.booleans()) else \
+            ["Comparison", v(), op(), inner]
+        if draw(st.integers(0, 2)) == 0:
+            ex = ["If", ex, ["Var", "x"], ["Var", "y"]]
     elif c == 3:
         # float exponents that are whole numbers: x**2.0 is a float whatever x is
         base = draw(st.sampled_from((["Var", "x"], ["Var", "y"], ["Var", "r"],
